@@ -335,7 +335,7 @@ impl Check for C12 {
             2 => (0u8..6).prop_map(MockReply::Nobody),
             1 => (0u8..3).prop_map(MockReply::Dropped),
         ];
-        (name, prop_oneof![3 => Just(String::new()), 1 => "[ -~]{0,20}", 1 => "\\PC{0,12}"], proptest::collection::vec(any::<u8>(), 16..=16), proptest::collection::vec(any::<u8>(), 0..200), reply)
+        (name, prop_oneof![3 => Just(String::new()), 1 => "[ -~]{0,20}", 1 => "\\PC{0,12}", 1 => "[a-z0-9.-]{21,64}", 1 => "[ -~]{1,40}"], proptest::collection::vec(any::<u8>(), 16..=16), proptest::collection::vec(any::<u8>(), 0..200), reply)
             .prop_map(|(name, server_id, secret, key, reply)| Case { name, server_id, secret, key, reply })
             .boxed()
     }
